@@ -142,7 +142,7 @@ P("C07", "exploration",
   "operand pairs from a 52-value boundary lattice around 0, 1, 2^63/2^64/2^127/2^128, 12451, (p-1)/2, p-1 and Montgomery constants "
   "(ALL pairs lattice x lattice) plus seeded uniform operands; every operation of the field API (+ - neg double * square cube invert "
   "pow pow_vartime sqrt sqrt_ratio, assigning and iterator forms, from u64/u128/str, predicates) compared with num-bigint; 24-byte "
-  "strings (canonical, >= p, second encodings v+p, high-limb bits, uniform) for decoding; published constants checked against their "
+  "strings (canonical, >= p, second encodings v+p, high-limb bits, uniform) for decoding - directly, as x / y of a share on the wire, and as first / last element of a secret handed to the dealer; published constants checked against their "
   "ff::PrimeField meaning. distinct = operand pairs / input strings.",
   ["num-bigint 0.3 arithmetic is correct (independent of ff's Montgomery code)", "exhaustive only on the lattice; sampled elsewhere",
    "primality of p and (p-1)/2 by Miller-Rabin with 24 prime bases"],
